@@ -1593,6 +1593,11 @@ skip_cpp_comment(int c) {
 
     while (c != EOF && c != '\n') {
       comment->_comment += c;
+      if (c == '\\' && peek() == '\n') {
+        // A backslash-newline continues the comment on the next line.
+        comment->_comment += (char)get();
+        ++line_number;
+      }
       c = get();
     }
 
@@ -1603,6 +1608,10 @@ skip_cpp_comment(int c) {
 
   } else {
     while (c != EOF && c != '\n') {
+      if (c == '\\' && peek() == '\n') {
+        // A backslash-newline continues the comment on the next line.
+        get();
+      }
       c = get();
     }
   }
